@@ -148,19 +148,22 @@ def numDen {V : Type} (xs : List (Node S V)) (i : Node S V) (num0 : S) : S × S 
 def divOut (divPanics : Bool) (num den : S) : Out S :=
   if den = 0 ∧ divPanics = true then .panic .div0 else .ok (num * den⁻¹)
 
+/-- body of the outer loop of `RecoverSecret`: `acc.Add(acc, num.Div(num, den))` -/
+def secretStep (divPanics : Bool) (x : List (Node S S)) (acc : Out S) (i : Node S S) : Out S :=
+  match acc with
+  | .ok a =>
+    let nd := numDen x i i.v
+    match divOut divPanics nd.1 nd.2 with
+    | .ok d => .ok (a + d)
+    | .err e => .err e
+    | .panic s => .panic s
+  | o => o
+
 /-- `RecoverSecret` -/
 def recoverSecret (divPanics : Bool) (shares : List (Option (PriShare S))) (t n : Nat) : Out S :=
   let x := xScalar shares t n
   if x.length < t then .err .few
-  else x.foldl (fun (acc : Out S) i =>
-    match acc with
-    | .ok a =>
-      let nd := numDen x i i.v
-      match divOut divPanics nd.1 nd.2 with
-      | .ok d => .ok (a + d)
-      | .err e => .err e
-      | .panic s => .panic s
-    | o => o) (.ok 0)
+  else x.foldl (secretStep divPanics x) (.ok 0)
 
 /-- `xMinusConst`: the polynomial `x - c` -/
 def xMinusConst (c : S) : List S := [-c, 1]
@@ -172,26 +175,29 @@ def basisAcc (xs : List (Node S S)) (j : Node S S) : List S × S :=
     if m.pos = j.pos then ba
     else (polyMul ba.1 (xMinusConst m.x), ba.2 * (j.x - m.x)⁻¹)) ([1], j.v)
 
+/-- body of the outer loop of `RecoverPriPoly` (`none` = `accPoly == nil`) -/
+def polyStep (g : Nat) (x : List (Node S S)) (acc : Out (Option (PriPoly S))) (j : Node S S) :
+    Out (Option (PriPoly S)) :=
+  match acc with
+  | .ok cur =>
+    let ba := basisAcc x j
+    let basis : PriPoly S := ⟨g, ba.1.map (fun c => c * ba.2)⟩
+    match cur with
+    | none => .ok (some basis)
+    | some a =>
+      match priAdd a basis with
+      | .ok s => .ok (some s)
+      | .err e => .err e
+      | .panic s => .panic s
+  | o => o
+
 /-- `RecoverPriPoly` (the `accPoly.Add` error is impossible: all bases have the same length,
 it is mirrored nevertheless). -/
 def recoverPriPoly (g : Nat) (shares : List (Option (PriShare S))) (t n : Nat) : Out (PriPoly S) :=
   let x := xScalar shares t n
   if x.length ≠ t then .err .few
   else
-    let r := x.foldl (fun (acc : Out (Option (PriPoly S))) j =>
-      match acc with
-      | .ok cur =>
-        let ba := basisAcc x j
-        let basis : PriPoly S := ⟨g, ba.1.map (fun c => c * ba.2)⟩
-        match cur with
-        | none => .ok (some basis)
-        | some a =>
-          match priAdd a basis with
-          | .ok s => .ok (some s)
-          | .err e => .err e
-          | .panic s => .panic s
-      | o => o) (.ok none)
-    match r with
+    match x.foldl (polyStep g x) (.ok none) with
     | .ok (some p) => .ok p
     | .ok none => .ok ⟨g, []⟩      -- t = 0: Go returns a nil *PriPoly; printed as the empty polynomial
     | .err e => .err e
@@ -255,19 +261,22 @@ def xCommitAux (S : Type) [IntCast S] (n : Nat) : Nat → List (Option (PubShare
     | none => xCommitAux S n (pos + 1) rest
     | some (i, v) => ⟨pos, xOf i, v⟩ :: xCommitAux S n (pos + 1) rest
 
+/-- body of the outer loop of `RecoverCommit`: `Acc.Add(Acc, Tmp.Mul(num.Div(num, den), V))` -/
+def commitStep (divPanics : Bool) (x : List (Node S P)) (acc : Out P) (i : Node S P) : Out P :=
+  match acc with
+  | .ok a =>
+    let nd := numDen x i (1 : S)
+    match divOut divPanics nd.1 nd.2 with
+    | .ok d => .ok (a + d • i.v)
+    | .err e => .err e
+    | .panic s => .panic s
+  | o => o
+
 /-- `RecoverCommit` -/
 def recoverCommit (divPanics : Bool) (shares : List (Option (PubShare P))) (t n : Nat) : Out P :=
   let x : List (Node S P) := xCommitAux S n 0 shares
   if x.length < t then .err .few
-  else x.foldl (fun (acc : Out P) i =>
-    match acc with
-    | .ok a =>
-      let nd := numDen x i (1 : S)
-      match divOut divPanics nd.1 nd.2 with
-      | .ok d => .ok (a + d • i.v)
-      | .err e => .err e
-      | .panic s => .panic s
-    | o => o) (.ok 0)
+  else x.foldl (commitStep divPanics x) (.ok 0)
 
 end Point
 
